@@ -8,7 +8,7 @@ from zonelib import AMAX, BMIN, MAXI, MINI, NPD, NPS
 META = {
     "property": "C04",
     "proof_modules": ["PyodaProofs.C04", "PyodaProofs.C04Spec", "PyodaProofs.C04Tail", "PyodaProofs.C04TailRules",
-                      "PyodaProofs.C04Seq", "PyodaProofs.C04TailEnd", "PyodaProofs.C04Zone", "PyodaProofs.C04Walk"],
+                      "PyodaProofs.C04Seq", "PyodaProofs.C04TailEnd", "PyodaProofs.C04Zone", "PyodaProofs.C04Walk", "PyodaProofs.GenAgreeC05"],
     "drivers": ["drv_zone"],
     "theorems": [
         "Pyoda.C04.search_spec", "Pyoda.C04.precalc_get_contains", "Pyoda.C04.precalc_get_unique",
@@ -26,8 +26,33 @@ META = {
         "Pyoda.C04.zoneOK_sound_max", "Pyoda.C04.maximal_differ", "Pyoda.C04.walk_partition", "Pyoda.C04.zoneOK_walk",
         "Pyoda.C04.dataOK_zoneSeq", "Pyoda.C04.dataOK_walk", "Pyoda.C04.fixed_zoneSeq",
         "Pyoda.C04.adjacent_differ", "Pyoda.C04.adjacent_differ_notail",
+        # agreement of the definitions generated from the Python source (tools/py2lean.py) with the model
+        "Pyoda.GenAgree.C05.gen_ZoneInterval_rawStart_eq", "Pyoda.GenAgree.C05.gen_ZoneInterval_rawEnd_eq",
+        "Pyoda.GenAgree.C05.gen_ZoneInterval_wallOffset_eq", "Pyoda.GenAgree.C05.gen_ZoneInterval_savings_eq",
+        "Pyoda.GenAgree.C05.gen_ZoneInterval_hasStart_eq", "Pyoda.GenAgree.C05.gen_ZoneInterval_hasEnd_eq",
+        "Pyoda.GenAgree.C05.gen_ZoneInterval_start_eq", "Pyoda.GenAgree.C05.gen_ZoneInterval_end_eq",
+        "Pyoda.GenAgree.C05.gen_ZoneInterval_containsInstant_eq",
+        "Pyoda.GenAgree.C05.gen_ZoneInterval_containsLocal_eq",
+        "Pyoda.GenAgree.C05.gen_ZoneLocalMapping_earlyInterval_eq",
+        "Pyoda.GenAgree.C05.gen_ZoneLocalMapping_lateInterval_eq",
+        "Pyoda.GenAgree.C05.gen_Zone_getEarlierMatchingInterval_eq",
+        "Pyoda.GenAgree.C05.gen_Zone_getLaterMatchingInterval_eq",
+        "Pyoda.GenAgree.C05.gen_Zone_getIntervalBeforeGap_eq", "Pyoda.GenAgree.C05.gen_Zone_getIntervalAfterGap_eq",
+        "Pyoda.GenAgree.C05.gen_Zone_mapLocal_eq", "Pyoda.GenAgree.C05.gen_Precalc_loop_rel",
+        "Pyoda.GenAgree.C05.gen_Precalc_getZoneIntervalNoTail_eq",
+        "Pyoda.GenAgree.C05.gen_Precalc_getZoneIntervalNoTail_loop1_eq",
+        "Pyoda.GenAgree.C05.gen_Precalc_getZoneIntervalTail_loop1_eq",
+        "Pyoda.GenAgree.C05.gen_Precalc_getZoneIntervalTail_eq",
     ],
     "trusted_base": [
+        "translator tie (tools/py2lean.py; generated file lean/PyodaGen/C05.lean shared by C04 and C05, agreement in PyodaProofs/GenAgreeC05.lean): DateTimeZone.map_local and its four helpers "
+        "(__get_earlier/later_matching_interval with their walrus tests on optional intervals, __get_interval_before/after_gap), ZoneInterval's __contains__ / _contains / has_start / has_end / guarded start / end, "
+        "and _PrecalculatedDateTimeZone.get_zone_interval (tail dispatch with the memoised first tail interval, and the binary search as a fuel-recursive loop with an early return) are re-translated from the current source on every run and "
+        "proved equal to mapLocal / earlierMatching / laterMatching / intervalBeforeGap / intervalAfterGap / Precalc.search / Precalc.get of PyodaModel/Zone.lean (the search by a step-for-step relation with fuel 2^63 periods). "
+        "Trusted there: the translator's semantics (self-test of C03); the model's integer timeline as the representation of Instant / _LocalInstant / Duration / Offset objects (lean/PyodaGen/GlueC05.lean: comparisons, "
+        "instant - Duration.epsilon and _LocalInstant._minus as range-checked integer subtraction, _minus_zero_offset as the identity, _days_since_epoch as floor division by a day — object-level arithmetic is tied by GenAgreeC03), "
+        "ZoneInterval as the model's ZI with __local_start/__local_end = safe_plus of the bounds (what __init__ computes), ZoneLocalMapping._ctor keeping (early, late, count), the zone's own get_zone_interval and the tail zone's as abstract callees. "
+        "Outside the tie: ZoneLocalMapping.single/first/last and the resolvers (the model describes the instants of the returned ZonedDateTimes, the code builds them lazily), at_start_of_day, ZoneRecurrence / ZoneYearOffset",
         "zone data (periods, tail rules) are read from the code's decoded objects and sent to the model per run; C06 ties them to the file bytes",
         "zones with a recurring tail: zoneOK_sound / zoneOK_gives_spec derive the whole-zone description (one strictly increasing transition sequence from the beginning to the end of time: stored periods, the clamped first tail interval at the seam, the tail intervals through year 9999, the final interval ending at the after-max sentinel; lookup constant on each interval, intervals abut) and the C05 hypotheses from ONE decidable check, zoneOK (stored periods well-formed and >= 36 h, every yearly occurrence of both rules for 1900..9999 inside its own local year and two days inside the end of time, the two rules alternate, consecutive tail transitions >= 36 h apart, the stored periods end at a valid instant after the first covered tail transition, the clamped seam interval >= 36 h), which the compiled driver evaluates on the current data of every zone with a tail each run (op zone.ok; trusted: Lean compiler for that evaluation); the Gregorian year search used by the rules is the one proved in C01 (getYear_spec, greg_wf)",
         "walks and maximality: walk_partition / zoneOK_walk / dataOK_walk (the walk from the minimum instant to past the maximum instant returns abutting intervals covering every valid instant, the last one ending at the after-max sentinel) and adjacent_differ / adjacent_differ_notail (adjacent intervals differ in name or offsets) rest on the same evaluated checks plus zoneMaximal / maximal (stored periods pairwise, the last stored period against the first tail interval, the two tail rules against each other), also evaluated on every zone each run; a zone failing them is reported as a failure",
